@@ -165,6 +165,12 @@ def run(chk):
                 a = list(r[1].reshape(-1)) + list(r[2])
                 b = list(ir[1].reshape(-1)) + list(ir[2])
                 rt = 1e-9 if G.tie_class(c) == "none" else 1e-7
+                lay = (c.get("present") or (None, None, None))[1] or ""
+                if lay.endswith(("float32", "float16")):
+                    # the INTERPRETED source (NumPy scalars) carries a binary32 argument through part of the arithmetic in binary32,
+                    # the compiled code promotes it to binary64 at once: both are the model's value to the rounding of the presented
+                    # dtype (false alarm of the first dtype family at VERIF_SEED=1, `f:float32`, relative difference 6e-8)
+                    rt = 1e-5 if lay.endswith("float32") else 1e-2
                 okc, idx = c03.block_close(a, b, 9 * c["ng"], rt) if c.get("relscale") else common.vec_close(a, b, rtol=rt)
                 if not okc:
                     bad.append((c, f"compiled vs interpreted differ at component {idx}: {a[idx]!r} vs {b[idx]!r}"))
